@@ -56,7 +56,13 @@ POOL = (
     ("us", "U", 1, ()),
     ("grid", "A", 2, ()),
     ("find", "A", 0, ("f", "id")),
+    # served by the library's default resolver from the source mapping (mode 3: never a list);
+    # named after attributes every dict has
+    ("items", "String", 3, ()),
+    ("values", "Int", 3, ()),
+    ("get", "String", 3, ()),
 )
+DEFAULT_RESOLVED = ("items", "values", "get")
 LEAF_NAMES = ("ID", "String", "Int", "Float", "Boolean", "Color")
 
 FREE_WRAPS = ("{}", "{}!", "[{}]", "[{}!]", "[{}]!", "[{}!]!")
@@ -84,7 +90,9 @@ class SchemaSpec:
         self.incremental = incremental
         self.wrap = {}
         for name, named, mode, _args in POOL:
-            if mode == 0:
+            if mode == 3:
+                self.wrap[name] = ("{}", "{}", "{}!")[tape.draw(3, "dwrap")]
+            elif mode == 0:
                 # interface-declared fields stay simple more often
                 self.wrap[name] = FREE_WRAPS[tape.weighted(
                     NONNULL_WEIGHTS if nonnull_bias else FREE_WEIGHTS, "wrap")]
@@ -116,6 +124,8 @@ class SchemaSpec:
                 mandatory.add("id")
             fields = []
             for name, _named, _mode, _a in POOL:
+                if _mode == 3 and tname not in OBJECTS:
+                    continue  # root values are plain markers, not data objects
                 if name in mandatory or tape.draw(5, "member") < 3:
                     fields.append(name)
             if not any(f in ("a", "b", "c", "d", "node", "named", "u", "as", "nodes", "us")
@@ -216,6 +226,17 @@ class Data:
     def value(self, ftype, oid, fname, args):
         key = (self.salt, oid, fname, canon(args) if args else "")
         return self._gen(ftype, key)
+
+    def default_entry(self, ftype, oid, fname):
+        """What the source mapping holds for a field served by the default resolver:
+        ("value", v) | ("none", None) | ("absent", None)."""
+        m = mix(self.salt, oid, fname, "entry") % 5
+        if m == 3:
+            return "none", None
+        if m == 4:
+            return "absent", None
+        v = self.value(ftype, oid, fname, None)
+        return ("value", v) if v is not None else ("none", None)
 
     def _gen(self, t, key):
         if is_non_null_type(t):
